@@ -1368,7 +1368,7 @@ impl Text {
 
     fn c16(&self, w: &mut Worker, rng: &mut Rng, n: u64) {
         let (class, src) = any_source(rng, w.seed, n);
-        if n % 211 == 5 && src.len() < 200_000 {
+        if n % w.tier.pick(211, 4001) == 5 && src.len() < 200_000 {
             self.c16_huge_trivia(w, rng, &src);
         }
         let (out, _) = kside::generate(&src, 50_000_000);
@@ -1380,7 +1380,7 @@ impl Text {
         let mut did = 0;
         for round in 0..6 {
             // (one of the six re-layouts of every third source puts the tokens on a page grid)
-            let aligned = round == 5 && n % 5 == 0;
+            let aligned = round == 5 && n % w.tier.pick(5, 40) == 0;
             let Some(r) = (if aligned { relayout_aligned(&src, rng) } else { relayout(&src, rng) }) else {
                 w.count("relayout-not-possible");
                 continue;
